@@ -62,3 +62,6 @@ M("c14-total-tokens-grants-by-difference", "C14", A, "CapacityLimiter.total_toke
 
 # from seeded change C03/f (round 3)
 M("c14-cancellable-alias-dropped", "C14", TT, "run_sync", "        abandon_on_cancel = cancellable\n", "", ["R14-e"])
+
+# from seeded change C14/f (round 3)
+M("c14-root-task-cleanup-drops-all-run-vars", "C14", A, "find_root_task", "                        if vars := _run_vars.get(t.get_loop()):\n                            vars.pop(_root_task, None)", "                        _run_vars.pop(t.get_loop(), None)", ["R14-i"])
